@@ -38,4 +38,4 @@ def run_slices(chk, prefixes, module="c08"):
 
 def run(chk):
     run_slices(chk, ["c08_", "c07_trampoline"])
-    return kcrate.run(chk, [("runtime.rs", "c08_"), ("runtime_scope.rs", "c08_")], out=OUT)
+    return kcrate.run(chk, [("runtime.rs", "c08_"), ("runtime_scope.rs", "c08_"), ("builtin__sequence.rs", "c08_")], out=OUT)
